@@ -9,6 +9,10 @@ if REPO not in sys.path:
 import logging                                   # noqa: E402
 logging.disable(logging.CRITICAL)
 from yabgp.message.update import Update          # noqa: E402
+from yabgp.message.open import Open              # noqa: E402
+from yabgp.message.notification import Notification   # noqa: E402
+from yabgp.message.keepalive import KeepAlive    # noqa: E402
+from yabgp.message.route_refresh import RouteRefresh  # noqa: E402
 from yabgp.common import constants as C          # noqa: E402
 import wire_map as M                             # noqa: E402
 
@@ -87,10 +91,93 @@ def run_update_vector(i, v):
     return line
 
 
+def first_diff(e, g):
+    e, g = M.norm(e), M.norm(g)
+    if e == g:
+        return ''
+    if isinstance(e, dict) and isinstance(g, dict):
+        for k in sorted(set(e) | set(g)):
+            if e.get(k) != g.get(k):
+                sub = first_diff(e.get(k), g.get(k)) if isinstance(e.get(k), dict) and isinstance(g.get(k), dict) else 'expected %r got %r' % (e.get(k), g.get(k))
+                return '%s: %s' % (k, sub)
+    return 'expected %r got %r' % (e, g)
+
+
+def run_session_msg_vector(i, v):
+    """OPEN / NOTIFICATION / KEEPALIVE / ROUTE-REFRESH vectors (C14, C08)"""
+    kind, u = v['kind'], v['u']
+    ref = bytes(v['b'])
+    cls = kind
+    if kind in ('open', 'openrt'):
+        cls = '%s-caps%s-%s-as%s' % (kind, '.'.join(str(c[0]) for c in u['caps']), u['pack'], 'hi' if u['as'][0] else 'lo')
+    line = {'id': i, 'kind': kind, 'cls': cls, 'asn4': False, 'ref': list(ref), 'impl': [], 'raised': False, 'none': False,
+            'rt_ok': False, 'dec_ok': False, 'dec_err': False, 'diff': '', 'ddiff': ''}
+
+    def parse(msg):
+        body = msg[19:]
+        if kind in ('open', 'openrt'):
+            return Open().parse(body)
+        if kind == 'notif':
+            return list(Notification.parse(body))
+        if kind == 'rr':
+            return list(RouteRefresh().parse(body))
+        KeepAlive.parse(body)
+        return 'ok'
+    if kind in ('open', 'openrt'):
+        exp = M.open_expected(u, C.AFI_SAFI_DICT, C.ADD_PATH_ACT_DICT)
+    elif kind == 'notif':
+        exp = [u['code'], u['sub'], bytes(u['data'])]
+    elif kind == 'rr':
+        exp = [u['afi'], u['res'], u['safi']]
+    else:
+        exp = 'ok'
+    try:
+        d = parse(ref)
+        dd = first_diff(exp, d) if not (isinstance(exp, list) and isinstance(d, list)) else ('' if exp == d else 'expected %r got %r' % (exp, d))
+        line['dec_ok'] = dd == ''
+        line['ddiff'] = dd[:300]
+    except Exception as e:
+        line['ddiff'] = 'raised %r' % (e,)
+    if kind == 'open':
+        return line
+    try:
+        if kind == 'openrt':
+            asn, hold, bid, cap = M.open_construct_input(u)
+            impl = Open(version=u['ver'], asn=asn, hold_time=hold, bgp_id=bid).construct(cap)
+        elif kind == 'notif':
+            impl = Notification().construct(u['code'], u['sub'], bytes(u['data']))
+        elif kind == 'rr':
+            impl = RouteRefresh(u['afi'], u['safi'], u['res']).construct(u['typ'])
+        else:
+            impl = KeepAlive().construct()
+    except Exception as e:
+        line['raised'] = True
+        line['diff'] = 'construct raised %r' % (e,)
+        return line
+    if impl is None:
+        line['none'] = True
+        return line
+    line['impl'] = list(impl)
+    try:
+        d = parse(impl)
+        dd = first_diff(exp, d) if not (isinstance(exp, list) and isinstance(d, list)) else ('' if exp == d else 'expected %r got %r' % (exp, d))
+        line['rt_ok'] = dd == ''
+        line['diff'] = dd[:300]
+    except Exception as e:
+        line['diff'] = 'parse raised %r' % (e,)
+    return line
+
+
+def run_vector(i, v):
+    if v['kind'] in ('upd', 'updvar', 'cor'):
+        return run_update_vector(i, v)
+    return run_session_msg_vector(i, v)
+
+
 def work(args):
     k, vecs, outdir = args
     path = os.path.join(outdir, 'codec_%04d.ndjson' % k)
     with open(path, 'w') as fh:
         for i, v in vecs:
-            fh.write(json.dumps(run_update_vector(i, v), separators=(',', ':')) + '\n')
+            fh.write(json.dumps(run_vector(i, v), separators=(',', ':')) + '\n')
     return path, len(vecs)
